@@ -2,21 +2,25 @@
 from props import kparts as kp
 from vlib import mlane
 
-FUNCTIONS = ["E57Writer::finalize_customized_xml over the real PagedWriter MIR with a device write log", "Header::write / Header::default (MIR)",
+FUNCTIONS = ["Blob::write, PointCloudWriter::{new,add_point,finalize} on the contract-level page layer; PagedWriter::flush (= Drop) on the real MIR", "E57Writer::finalize_customized_xml over the real PagedWriter MIR with a device write log", "Header::write / Header::default (MIR)",
              "PagedReader::new (Kani: rejects lengths that are not whole pages)"]
 ASSUME = [
     "granularity: whole device write operations, in issue order; a cut INSIDE one device write (torn page) is outside the claim",
     "decided: every device write of finalize except the last leaves header bytes 0..48 logically unchanged (the placeholder written by E57Writer::new, "
     "xml offset = xml length = 0, stays in place), the last device write is the one that stores the final header, and after it every page is valid and the XML is at the published offset",
+    "before finalize: every section-level operation (Blob::write — also used for images and masks — and PointCloudWriter new/add_point/finalize) leaves every logical byte in front of its own section, "
+    "hence the placeholder header, unchanged (claims 'nothing outside the section is disturbed' from any writer state with a cursor behind the header); dropping the writer is PagedWriter::flush, which leaves "
+    "the logical stream unchanged (real MIR, any INV state)",
     "that the reader rejects a file whose header says xml_length = 0 rests on the XML parser rejecting an empty document (roxmltree; outside this technique)",
     "pre-state: ANY INV-writer state of the real page layer with cursor >= 48; XML text arbitrary, length 1..1100 (quick) / 2100 (thorough)",
 ]
 
 
 def run(ctx):
-    from mirsym import spec_e57
+    from mirsym import spec_blob, spec_e57, spec_page, spec_pcw
     tier = ctx["tier"]
-    obls, samples = mlane.run_scenarios("C15", "O15", spec_e57.ordering_scenarios(tier), ctx, "any INV writer state <= 8 pages, XML <= 1100/2100 B")
+    pre_finalize = spec_page.writer_scenarios()[2:3] + spec_blob.scenarios(tier)[:1] + spec_pcw.scenarios(tier)[:1]
+    obls, samples = mlane.run_scenarios("C15", "O15", spec_e57.ordering_scenarios(tier) + pre_finalize, ctx, "any INV writer state <= 8 pages, XML <= 1100/2100 B")
     obls += kp.run_k("C15", "c15", kp.F_PR, kp.reader_misc_specs(tier)[1:], ctx)
     return dict(obligations=obls, functions=FUNCTIONS, assumptions=ASSUME, samples=samples,
                 extra={"engine": "mirsym (MIR -> z3 5.1) + Kani 0.68", "mir_regenerated_from": "/repo working tree"})
